@@ -85,7 +85,7 @@ def gen_library(rng, n_models=None, small=False):
         terms = []
         usable = list(models)
         imported = None
-        if usable and rng.random() < 0.12:
+        if usable and rng.random() < 0.2:
             cand = [u for u in usable if len(u[0]) == 2 and u[0][:-1] != path[:-1]]
             if cand:
                 imported = rng.choice(cand)
@@ -113,10 +113,14 @@ def gen_library(rng, n_models=None, small=False):
             m.eqs.append("connect(a%d, b%d);" % (i, i))
             m.eqs.append("a%d.v = %s;" % (i, x))
             users.setdefault(c, []).append(path)
-        if rng.random() < 0.3:
+        if rng.random() < (0.6 if imported else 0.3):
             nn = _N("N%d" % i, "model")
             nn.decl.append("Real y%d;" % i)
             nn.eqs.append("y%d = %d.0;" % (i, i))
+            if imported:
+                # a nested class using the unqualified import of its owner: the lookup climbs to the
+                # ORIGINAL owner, whose import memo is written (ast.py:681)
+                nn.decl.append("%s q%d;" % (imported[0][-1], i))
             m.children.append(nn)
             classes[path + (nn.name,)] = "model"
             syms[path + (nn.name,)] = ["y%d" % i]
@@ -492,8 +496,8 @@ def run(ctx):
     ctx.notes["source_fingerprint"] = {"ast.py:Class.__deepcopy__+ClassModificationArgument.__deepcopy__": fp}
     sg, sh, why = source_flags(src)
 
-    n_graph = ctx.scaled(100, 1500)
-    n_oracle = ctx.scaled(50, 900)
+    n_graph = ctx.scaled(80, 1000)
+    n_oracle = ctx.scaled(40, 450)
     graph_cases = [gen_graph_case(ctx.rng, ctx.rng.randint(2, 7)) for _ in range(n_graph)]
     oracle_cases = [gen_oracle_case(ctx.rng, ctx.rng.randint(6, ctx.scaled(16, 24))) for _ in range(n_oracle)]
     try:
